@@ -121,6 +121,14 @@ add('C20', 'exploration', 'exhaustive product of contents x limits x handlers x 
     'same-mtime rewritten content.',
     'Whole-MB or exact binary-fraction limits only; concurrent use of one handler from several threads is outside the quantifier.')
 
+add('C19', 'model_checking', 'exhaustive enumeration of recording sets x selections x failing-tuner subsets x generator-consumption interleavings on the real studio, journalled tunings',
+    'Every assignment of <=3 (thorough 4) recordings to the categories Op / OpX / Op_X (real operation classes) x explicit id lists in every permutation '
+    '(and with a repeated id) or lookup-driven selection with limits x tuner failing for every subset of categories (with a message and argument-less) x '
+    'every interleaving of next() over the per-category generators and early abandonment, on memory, file and S3(fake) cassettes: each selected recording '
+    'is replayed exactly once by the playback function / extractor / comparator created for its own category, categories are reported in deterministic '
+    'order, a failing tuner yields its own error object for that category only.',
+    'In-process execution only (worker routing is C08); lookup window is "last day" on the real clock (windows are C16).')
+
 NOT_YET = {}
 
 
